@@ -182,9 +182,89 @@ def r21c(ctx, run):
         raise LookupError("uses of the layout/final-type caches: %d" % n)
 
 
+def r21d(ctx, run):
+    """what a build leaves in an output file depends only on this build: every file the compiler writes is replaced as a whole (fs::write, File::create,
+    or OpenOptions with truncate(true) / create_new(true)); opening an existing output for writing without truncation keeps the tail of whatever an earlier,
+    longer build left there, and appending keeps all of it"""
+    F = ctx.facts
+    whole, n_open = 0, 0
+    for fn in F.fns:
+        if fn.crate in ("test_utils",) or "::tests::" in fn.path:
+            continue
+        for c in fn.calls():
+            cs = short(c.callee)
+            if cs == "write" and c.callee.startswith("std::fs::write"):
+                whole += 1
+                run.ok(c.site(), "%s replaces its output with fs::write" % short(strip_generics(fn.path)))
+            elif cs == "create" and "fs::File" in c.callee:
+                whole += 1
+                run.ok(c.site(), "%s replaces its output with File::create" % short(strip_generics(fn.path)))
+            elif cs == "open" and "OpenOptions" in c.callee:
+                n_open += 1
+                ch = fn.chain_operand(c.args[0], depth=16)
+                opts = {}
+                for nd in FA.walk_chain(ch):
+                    if nd.get("kind") == "call" and short(nd["callee"]) in ("write", "append", "truncate", "create", "create_new", "read") and len(nd.get("args", [])) >= 2:
+                        a = nd["args"][1]
+                        opts[short(nd["callee"])] = a.get("value") if a.get("kind") == "scalar" else "?"
+                writes = opts.get("write") in ("true", "?") or opts.get("append") in ("true", "?")
+                if not writes:
+                    run.ok(c.site(), "%s opens a file for reading only" % short(strip_generics(fn.path)))
+                    continue
+                good = (opts.get("truncate") == "true" or opts.get("create_new") == "true") and opts.get("append") not in ("true", "?")
+                run.check(good, c.site(), "%s opens its output with truncation (%s)" % (short(strip_generics(fn.path)), opts), strip_generics(fn.path), "output-not-replaced", c.file, c.ln,
+                          "%s opens a file for writing with options %s: without truncate(true) the bytes an earlier, longer build left in the file survive after the new "
+                          "contents, so the same source gives different output bytes depending on what was built there before" % (short(strip_generics(fn.path)), opts))
+    if whole < 1:
+        raise LookupError("whole-file writers (fs::write / File::create) in the workspace: %d" % whole)
+
+
+def r21e(ctx, run):
+    """bytes that are copied out of the JIT's memory and embedded into the object file contain no unwritten memory: the gaps between the members of an
+    aggregate are never written by the code that produced the value, so they hold whatever was on the stack (addresses included).  Between taking
+    the bytes (Box::from_raw of the result memory) and recording them (ComptimeResult::Data), every path passes a step that is given the result's type
+    and the bytes mutably (the canonicalisation of the padding)."""
+    F = ctx.facts
+    fn = F.fn("codegen::compiler::comptime::eval_comptime_blocks")
+    U = "codegen::compiler::comptime::eval_comptime_blocks"
+    takes = [c for c in fn.calls() if short(c.callee) == "from_raw" and "Box" in c.callee]
+    if not takes:
+        raise LookupError("Box::from_raw of the comptime result memory")
+    recs = []
+    for c in fn.calls():
+        if short(c.callee) == "insert" and len(c.args) >= 3:
+            v = fn.chain_operand(c.args[2], depth=10)
+            if any(n.get("kind") == "agg" and "ComptimeResult::Data" in (n.get("path") or "") or "Data" in str(n.get("variant", "")) for n in walk_chain(v)) and \
+                    any(n.get("kind") == "call" and short(n["callee"]) == "from_raw" for n in walk_chain(v)):
+                recs.append(c)
+    if not recs:
+        raise LookupError("results.insert(.., ComptimeResult::Data(bytes)) fed by Box::from_raw")
+    for rec in recs:
+        t = [x for x in takes if fn.dominates(x.bb, rec.bb)]
+        if not t:
+            continue
+        t = t[0]
+        canon_calls = []
+        for c in fn.calls():
+            if c.bb in (t.bb, rec.bb) or not (fn.dominates(t.bb, c.bb) and fn.dominates(c.bb, rec.bb)):
+                continue
+            chains = [fn.chain_operand(a, depth=10) for a in c.args]
+            has_ty = any(any(n.get("name") == "return_ty" or n.get("var") == "return_ty" for n in walk_chain(ch)) for ch in chains)
+            has_mut_bytes = any(any(n.get("kind") == "ref" and n.get("mut") for n in walk_chain(ch)) and any(n.get("kind") == "call" and short(n["callee"]) == "from_raw" for n in walk_chain(ch))
+                                for ch in chains)
+            if has_ty and has_mut_bytes:
+                canon_calls.append(c)
+        run.check(bool(canon_calls), rec.site(), "the captured bytes pass %s (given the type and the bytes mutably) before they are recorded" % (short(canon_calls[0].callee) if canon_calls else "-"),
+                  U, "captured-bytes-not-canonical", rec.file, rec.ln,
+                  "the bytes of an aggregate comptime result are taken from the JIT's memory (line %d) and recorded for embedding without a step that is given the "
+                  "result's type and the bytes mutably: the padding between members holds stack garbage, so the same source gives different object bytes from run to run" % t.ln)
+
+
 def rules(ctx):
     return [
         Rule("R21.a", "every reachable hash-container iteration has a run-stable order (hasher, key type, container kind)", 30, r21a),
         Rule("R21.b", "ambient inputs only at enumerated sites; no address exposure", 1, r21b),
         Rule("R21.c", "Intern-keyed process-global caches are point-queried only", 6, r21c),
+        Rule("R21.e", "bytes captured from JIT memory are canonicalised (padding) before they are embedded", 1, r21e),
+        Rule("R21.d", "every output file is replaced as a whole (no write-open without truncation, no append)", 1, r21d),
     ]
